@@ -52,6 +52,90 @@ fn contains_return_expr(e: &Expr) -> bool {
     v.0
 }
 
+/// `e?` somewhere in the expression (closures and items are not entered)
+fn contains_try_expr(e: &Expr) -> bool {
+    struct V(bool);
+    impl<'ast> syn::visit::Visit<'ast> for V {
+        fn visit_expr_try(&mut self, _: &'ast syn::ExprTry) {
+            self.0 = true;
+        }
+        fn visit_expr_closure(&mut self, _: &'ast syn::ExprClosure) {}
+        fn visit_item(&mut self, _: &'ast Item) {}
+    }
+    let mut v = V(false);
+    syn::visit::Visit::visit_expr(&mut v, e);
+    v.0
+}
+
+/// the number of `e?` in positions that are evaluated whenever the expression is (operands of calls, method calls,
+/// constructors, tuples, references, field accesses), or None when a `?` stands anywhere else (a branch, a closure,
+/// the right operand of `&&` / `||`): such a `?` cannot be hoisted in front of the expression
+fn strict_tries(e: &Expr) -> Option<usize> {
+    match e {
+        Expr::Try(t) => strict_tries(&t.expr).map(|n| n + 1),
+        Expr::Paren(p) => strict_tries(&p.expr),
+        Expr::Group(p) => strict_tries(&p.expr),
+        Expr::Reference(r) => strict_tries(&r.expr),
+        Expr::Field(f) => strict_tries(&f.base),
+        Expr::Unary(u) => strict_tries(&u.expr),
+        Expr::Call(c) => {
+            let mut n = 0;
+            for a in &c.args {
+                n += strict_tries(a)?;
+            }
+            Some(n)
+        }
+        Expr::MethodCall(m) => {
+            let mut n = strict_tries(&m.receiver)?;
+            for a in &m.args {
+                n += strict_tries(a)?;
+            }
+            Some(n)
+        }
+        Expr::Tuple(t) => {
+            let mut n = 0;
+            for a in &t.elems {
+                n += strict_tries(a)?;
+            }
+            Some(n)
+        }
+        other => {
+            if contains_try_expr(other) {
+                None
+            } else {
+                Some(0)
+            }
+        }
+    }
+}
+
+/// a Coq term for an ASCII byte string: printable stretches as string literals, any other byte with the constructor of
+/// Coq's `ascii` (least significant bit first)
+fn coq_string_ctl(v: &[u8]) -> String {
+    let printable = |c: u8| c.is_ascii() && !c.is_ascii_control();
+    if v.iter().all(|c| printable(*c)) {
+        return coq_string(std::str::from_utf8(v).unwrap_or(""));
+    }
+    // right-nested: lit ++ (String c (lit ++ ...))
+    fn go(v: &[u8], printable: &dyn Fn(u8) -> bool) -> String {
+        if v.is_empty() {
+            return "EmptyString".to_owned();
+        }
+        if printable(v[0]) {
+            let n = v.iter().position(|c| !printable(*c)).unwrap_or(v.len());
+            let lit = coq_string(std::str::from_utf8(&v[..n]).unwrap_or(""));
+            if n == v.len() {
+                return lit;
+            }
+            return format!("(String.append {lit} {})", go(&v[n..], printable));
+        }
+        let code = v[0] as u32;
+        let bits: Vec<&str> = (0..8).map(|i| if (code >> i) & 1 == 1 { "true" } else { "false" }).collect();
+        format!("(String (Ascii.Ascii {}) {})", bits.join(" "), go(&v[1..], printable))
+    }
+    go(v, &printable)
+}
+
 fn contains_return_block(b: &Block) -> bool {
     struct V(bool);
     impl<'ast> syn::visit::Visit<'ast> for V {
@@ -406,6 +490,15 @@ impl<'u> Tr<'u> {
             }
             Pat::Reference(r) => self.poison_pattern(&r.pat, env, why, sp),
             Pat::Type(t) => self.poison_pattern(&t.pat, env, why, sp),
+            // a struct / tuple pattern: every name it binds (fifth round; glue family)
+            Pat::Struct(_) | Pat::TupleStruct(_) | Pat::Tuple(_) | Pat::Paren(_) if self.spec.module.is_some() => {
+                let mut names = Vec::new();
+                pat_idents(p, &mut names);
+                for n in names {
+                    env.binds.push(Bind { rust: n.clone(), coq: local_name(&n), ty: Ty::Never, poisoned: Some(why.to_owned()) });
+                }
+                Ok(())
+            }
             _ => self.err(sp, format!("pattern `{}` on something that is not translated ({why})", norm(p))),
         }
     }
@@ -435,10 +528,22 @@ impl<'u> Tr<'u> {
             }
             Lit::Str(st) => {
                 let v = st.value();
+                if v.is_ascii() && v.chars().any(|c| c.is_ascii_control()) && self.spec.module.is_some() {
+                    // control characters (a newline) are written with the constructor of Coq's ascii (fifth round)
+                    return Ok((raw(coq_string_ctl(v.as_bytes())), Ty::Str));
+                }
                 if !v.chars().all(|c| c.is_ascii() && !c.is_ascii_control()) {
                     return self.err(sp, "string literal with non-printable or non-ASCII characters");
                 }
                 Ok((raw(coq_string(&v)), Ty::Str))
+            }
+            // a byte string literal: Coq strings are byte strings
+            Lit::ByteStr(bs) if self.spec.strings => {
+                let v = bs.value();
+                if !v.is_ascii() {
+                    return self.err(sp, "byte string literal with non-ASCII bytes");
+                }
+                Ok((raw(coq_string_ctl(&v)), Ty::Str))
             }
             _ => self.err(sp, "unsupported literal (only integers, booleans and ASCII strings)"),
         }
@@ -704,13 +809,22 @@ impl<'u> Tr<'u> {
             _ => self.pattern(pat, elem, &mut env2)?,
         };
         if contains_return_expr(&c.body) {
-            return self.err(c.body.span(), "`return` inside a closure argument");
+            // a `return` leaves the closure: allowed when the type of the closure's value is known (fifth round)
+            match hint {
+                Some(h) => env2.ret = Some(h.clone()),
+                None => return self.err(c.body.span(), "`return` inside a closure argument whose value type is not known"),
+            }
+        }
+        if contains_try_expr(&c.body) {
+            return self.err(c.body.span(), "`?` inside a closure argument");
         }
         // the closure is a function of its own: no threaded state of the enclosing block is visible as state
         env2.vars.clear();
         env2.local_state = None;
         env2.mutating = false;
+        env2.events_enum = None;
         let (b, t) = self.tail_value(&c.body, &env2, hint)?;
+        let t = if t == Ty::Never { hint.cloned().unwrap_or(t) } else { t };
         Ok((raw(format!("(fun {binder} => {})", b.render(4))), t))
     }
 
@@ -787,6 +901,47 @@ impl<'u> Tr<'u> {
                 Ok((app(if name == "any" { "List.existsb" } else { "List.forallb" }, vec![f, recv]), Ty::Bool))
             }
             (Ty::Str, "to_owned", 0) | (Ty::Str, "to_string", 0) | (Ty::Str, "as_str", 0) => Ok((recv, Ty::Str)),
+            // bytes <-> str: Coq strings are byte strings (a lossy conversion is the identity on valid UTF-8; what it does
+            // to invalid bytes is not modelled)
+            (Ty::Str, "as_bytes", 0) | (Ty::Str, "to_str_lossy", 0) | (Ty::Str, "as_str_lossy", 0) | (Ty::Str, "as_bstr", 0)
+                if self.spec.module.is_some() =>
+            {
+                self.notes.push(format!("`{name}()` on a string is the identity (Coq strings are byte strings; a lossy conversion of invalid UTF-8 is not modelled)"));
+                Ok((recv, Ty::Str))
+            }
+            // `s.strip_prefix(p)` / `s.strip_suffix(p)`: the rest of s, if s begins / ends with p
+            (Ty::Str, "strip_prefix", 1) | (Ty::Str, "strip_suffix", 1) => {
+                let (a, at) = self.expr(args[0], env, Some(&Ty::Str))?;
+                if at != Ty::Str {
+                    return self.err(sp, format!("`{name}` with a pattern that is not a string"));
+                }
+                let h = self.ensure_str_strip(name == "strip_prefix");
+                Ok((app(&h, vec![a, recv]), Ty::Option(Box::new(Ty::Str))))
+            }
+            // `xs.skip_while(|x| ..)` / `xs.take_while(|x| ..)` / `xs.skip(n)`
+            (Ty::List(inner), "skip_while", 1) | (Ty::List(inner), "take_while", 1) => {
+                let (f, t) = self.closure1(args[0], inner, env, Some(&Ty::Bool))?;
+                if t != Ty::Bool {
+                    return self.err(sp, format!("`{name}` with a closure that does not return a boolean"));
+                }
+                let h = self.ensure_list_while(name == "take_while");
+                Ok((app(&h, vec![f, recv]), rt.clone()))
+            }
+            (Ty::List(_), "skip", 1) => {
+                let (a, at) = self.expr(args[0], env, Some(&Ty::N))?;
+                if at != Ty::N {
+                    return self.err(sp, "`skip` with a count that is not an unsigned integer");
+                }
+                Ok((app("List.skipn", vec![app("N.to_nat", vec![a]), recv]), rt.clone()))
+            }
+            // `xs.contains(&x)` on a list of strings
+            (Ty::List(inner), "contains", 1) if **inner == Ty::Str => {
+                let (a, at) = self.expr(args[0], env, Some(&Ty::Str))?;
+                if at != Ty::Str {
+                    return self.err(sp, "`contains` with an argument that is not a string");
+                }
+                Ok((app("List.existsb", vec![app("String.eqb", vec![a]), recv]), Ty::Bool))
+            }
             // `s.starts_with("lit")`: the literal is a prefix of s (Coq's String.prefix)
             (Ty::Str, "starts_with", 1) if matches!(args[0], Expr::Lit(syn::ExprLit { lit: Lit::Str(_), .. })) => {
                 let (a, _) = self.expr(args[0], env, Some(&Ty::Str))?;
@@ -826,6 +981,80 @@ impl<'u> Tr<'u> {
                 let (a, ta) = self.tail_value(body, env, Some(inner))?;
                 let t = if **inner == Ty::Never { ta } else { (**inner).clone() };
                 Ok((G::Match(Box::new(recv), vec![("Some o".into(), raw("o")), ("None".into(), a)]), t))
+            }
+            // `opt.and_then(|x| e)` / `opt.map(|x| e)` / `opt.is_some_and(|x| e)`: a match on the option (fifth round)
+            (Ty::Option(inner), "and_then", 1) | (Ty::Option(inner), "map", 1) | (Ty::Option(inner), "is_some_and", 1) => {
+                let h = match (name.as_str(), hint) {
+                    ("and_then", Some(h @ Ty::Option(_))) => Some(h.clone()),
+                    ("map", Some(Ty::Option(h))) => Some((**h).clone()),
+                    ("is_some_and", _) => Some(Ty::Bool),
+                    _ => None,
+                };
+                let c = match args[0] {
+                    Expr::Closure(c) if c.inputs.len() == 1 && c.asyncness.is_none() => c,
+                    _ => return self.err(sp, format!("`{name}` with an argument that is not a closure with one parameter")),
+                };
+                let mut env2 = env.clone();
+                let pat = match &c.inputs[0] {
+                    Pat::Type(pt) => &*pt.pat,
+                    p => p,
+                };
+                let binder = self.pattern(pat, inner, &mut env2)?;
+                if contains_return_expr(&c.body) || contains_try_expr(&c.body) {
+                    return self.err(c.body.span(), "`return` / `?` inside a closure argument");
+                }
+                env2.vars.clear();
+                env2.local_state = None;
+                env2.mutating = false;
+                env2.events_enum = None;
+                let (b, bt) = self.tail_value(&c.body, &env2, h.as_ref())?;
+                match name.as_str() {
+                    "and_then" => match &bt {
+                        Ty::Option(_) => Ok((G::Match(Box::new(recv), vec![(format!("Some {binder}"), b), ("None".into(), raw("None"))]), bt.clone())),
+                        _ => self.err(sp, "`and_then` with a closure that does not return an option"),
+                    },
+                    "map" => Ok((
+                        G::Match(Box::new(recv), vec![(format!("Some {binder}"), app("Some", vec![b])), ("None".into(), raw("None"))]),
+                        Ty::Option(Box::new(bt)),
+                    )),
+                    _ => {
+                        if bt != Ty::Bool {
+                            return self.err(sp, "`is_some_and` with a closure that does not return a boolean");
+                        }
+                        Ok((G::Match(Box::new(recv), vec![(format!("Some {binder}"), b), ("None".into(), raw("false"))]), Ty::Bool))
+                    }
+                }
+            }
+            // `opt.ok_or_else(|| e)` / `opt.ok_or(e)`: Some v -> Ok v, None -> Err e
+            (Ty::Option(inner), "ok_or_else", 1) | (Ty::Option(inner), "ok_or", 1) => {
+                let body = if name == "ok_or" { args[0] } else { self.closure0(args[0])? };
+                if contains_return_expr(body) || contains_try_expr(body) {
+                    return self.err(body.span(), "`return` / `?` inside a closure argument");
+                }
+                let eh = match hint {
+                    Some(Ty::Result(_, b)) => Some((**b).clone()),
+                    _ => None,
+                };
+                let mut env2 = env.clone();
+                env2.events_enum = None;
+                let (a, ta) = self.tail_value(body, &env2, eh.as_ref())?;
+                Ok((
+                    G::Match(Box::new(recv), vec![("Some o".into(), raw("inl o")), ("None".into(), app("inr", vec![a]))]),
+                    Ty::Result(inner.clone(), Box::new(ta)),
+                ))
+            }
+            // `map.get(key)` on a map with string keys (a list of pairs): the value of the first pair with that key
+            (Ty::List(inner), "get", 1) if matches!(&**inner, Ty::Tuple(kv) if kv.len() == 2 && kv[0] == Ty::Str) => {
+                let vt = match &**inner {
+                    Ty::Tuple(kv) => kv[1].clone(),
+                    _ => unreachable!(),
+                };
+                let (k, kt) = self.expr(args[0], env, Some(&Ty::Str))?;
+                if kt != Ty::Str {
+                    return self.err(sp, "`get` with a key that is not a string");
+                }
+                let h = self.ensure_str_assoc();
+                Ok((app(&h, vec![k, recv]), Ty::Option(Box::new(vt))))
             }
             (Ty::Option(inner), "or", 1) | (Ty::Option(inner), "or_else", 1) => {
                 let body = if name == "or" { args[0] } else { self.closure0(args[0])? };
@@ -867,6 +1096,48 @@ impl<'u> Tr<'u> {
             self.helpers.insert(f.clone());
             let text = "Definition str_split_once (c : Ascii.ascii) : string -> option (string * string) :=\n  fix go (s : string) : option (string * string) :=\n    match s with\n    | EmptyString => None\n    | String a r =>\n        if Ascii.eqb a c then Some (EmptyString, r)\n        else match go r with\n             | Some (k, v) => Some (String a k, v)\n             | None => None\n             end\n    end.".to_owned();
             self.emit(&f, text, "str::split_once(char): before / after the first occurrence".to_owned());
+        }
+        f
+    }
+
+    /// `str_strip_prefix p s` / `str_strip_suffix p s`: the translation of `s.strip_prefix(p)` / `s.strip_suffix(p)`
+    fn ensure_str_strip(&mut self, prefix: bool) -> String {
+        let f = if prefix { "str_strip_prefix" } else { "str_strip_suffix" }.to_owned();
+        if !self.helpers.contains(&f) {
+            self.helpers.insert(f.clone());
+            let text = if prefix {
+                "Definition str_strip_prefix : string -> string -> option string :=\n  fix go (p s : string) : option string :=\n    match p with\n    | EmptyString => Some s\n    | String a p' =>\n        match s with\n        | EmptyString => None\n        | String b s' => if Ascii.eqb a b then go p' s' else None\n        end\n    end."
+            } else {
+                "Definition str_strip_suffix (p : string) : string -> option string :=\n  fix go (s : string) : option string :=\n    if String.eqb s p then Some EmptyString\n    else match s with\n         | EmptyString => None\n         | String a r =>\n             match go r with\n             | Some k => Some (String a k)\n             | None => None\n             end\n         end."
+            };
+            self.emit(&f, text.to_owned(), format!("str::{}: the rest of the string, if it {} with the pattern", if prefix { "strip_prefix" } else { "strip_suffix" }, if prefix { "begins" } else { "ends" }));
+        }
+        f
+    }
+
+    /// `list_take_while f xs` / `list_skip_while f xs`: the longest prefix whose elements satisfy f / what follows it
+    fn ensure_list_while(&mut self, take: bool) -> String {
+        let f = if take { "list_take_while" } else { "list_skip_while" }.to_owned();
+        if !self.helpers.contains(&f) {
+            self.helpers.insert(f.clone());
+            let text = if take {
+                "Definition list_take_while {A : Type} (f : A -> bool) : list A -> list A :=\n  fix go (xs : list A) : list A :=\n    match xs with\n    | nil => nil\n    | cons x r => if f x then cons x (go r) else nil\n    end."
+            } else {
+                "Definition list_skip_while {A : Type} (f : A -> bool) : list A -> list A :=\n  fix go (xs : list A) : list A :=\n    match xs with\n    | nil => nil\n    | cons x r => if f x then go r else xs\n    end."
+            };
+            self.emit(&f, text.to_owned(), format!("Iterator::{}", if take { "take_while" } else { "skip_while" }));
+        }
+        f
+    }
+
+    /// `str_assoc k m`: the translation of `m.get(k)` for a map with string keys, rendered as a list of pairs (the value
+    /// of the first pair whose key is k; the keys of a map are distinct)
+    fn ensure_str_assoc(&mut self) -> String {
+        let f = "str_assoc".to_owned();
+        if !self.helpers.contains(&f) {
+            self.helpers.insert(f.clone());
+            let text = "Definition str_assoc {V : Type} (k : string) : list (string * V) -> option V :=\n  fix go (m : list (string * V)) : option V :=\n    match m with\n    | nil => None\n    | cons (k', v) r => if String.eqb k' k then Some v else go r\n    end.".to_owned();
+            self.emit(&f, text, "map.get(key) on a map with string keys: the value stored under the key".to_owned());
         }
         f
     }
@@ -1227,6 +1498,30 @@ impl<'u> Tr<'u> {
                 };
                 Ok((raw("nil"), Ty::List(Box::new(t))))
             }
+            // `[a, b]` / `&[a, b]`: the list of the values (fifth round; glue family only)
+            Expr::Array(a) if self.spec.module.is_some() => {
+                let eh = match hint {
+                    Some(Ty::List(t)) => Some((**t).clone()),
+                    _ => None,
+                };
+                let mut gs = Vec::new();
+                let mut et: Option<Ty> = eh;
+                for x in &a.elems {
+                    let (g, t) = self.expr(x, env, et.as_ref())?;
+                    if let Some(prev) = &et {
+                        if *prev != t && *prev != Ty::Never {
+                            return self.err(sp, "array literal with elements of different types");
+                        }
+                    }
+                    et = Some(t);
+                    gs.push(g);
+                }
+                let mut out = raw("nil");
+                for g in gs.into_iter().rev() {
+                    out = app("cons", vec![g, out]);
+                }
+                Ok((out, Ty::List(Box::new(et.unwrap_or(Ty::Never)))))
+            }
             Expr::If(_) | Expr::Match(_) | Expr::Block(_) => {
                 if contains_return_expr(e) {
                     return self.err(sp, "`return` inside an expression that is not in tail position");
@@ -1240,6 +1535,29 @@ impl<'u> Tr<'u> {
                 self.tail_value(e, env, hint)
             }
             Expr::Return(_) => self.err(sp, "`return` inside an expression that is not in tail position"),
+            // `f(..).await`: the value the future yields (glue family: used for opaque calls of async functions)
+            Expr::Await(a) if self.spec.module.is_some() => self.expr(&a.base, env, hint),
+            Expr::Try(t) => {
+                // `e?` nested in the value of a `let` (see `tail_bind`): a fresh name, bound by a hoisted match
+                if self.try_slots.is_none() {
+                    return self.err(sp, "`?` in a position that is outside the subset (only `e?;`, `let p = e?;` and operands of the value of a `let`)");
+                }
+                let eb = match &env.ret {
+                    Some(Ty::Result(_, b)) => (**b).clone(),
+                    _ => return self.err(sp, "`?` in a function that does not return a Result"),
+                };
+                let eh = Ty::Result(Box::new(hint.cloned().unwrap_or(Ty::Never)), Box::new(eb.clone()));
+                let (g, t) = self.expr(&t.expr, env, Some(&eh))?;
+                let a = match &t {
+                    Ty::Result(a, b) if **b == eb => (**a).clone(),
+                    Ty::Result(..) => return self.err(sp, "`?` whose error type is not the error type of the function"),
+                    _ => return self.err(sp, format!("`?` on a value of type {}", t.coq())),
+                };
+                let slots = self.try_slots.as_mut().unwrap();
+                let n = format!("q{}", slots.len());
+                slots.push((n.clone(), g));
+                Ok((raw(n), a))
+            }
             _ => self.err(sp, format!("unsupported expression `{}`", {
                 let s = norm(e);
                 if s.len() > 80 { format!("{}...", &s[..80]) } else { s }
